@@ -13,14 +13,16 @@ impl<T: std::fmt::Debug> std::fmt::Debug for Vec<T> { fn fmt(&self, f: &mut std:
 impl<T> Vec<T> {
     pub fn new() -> Self { Self::default() }
     pub fn with_capacity(_: usize) -> Self { Self::default() }
-    pub fn push(&mut self, x: T) { assert!(self.len < VCAP, "env/vec_fixed.rs: capacity exceeded"); self.items[self.len] = MaybeUninit::new(x); self.len += 1; }
+    pub fn push(&mut self, x: T) { assert!(self.len < VCAP, "env/vec_fixed.rs: capacity exceeded"); unsafe { (self.items.as_mut_ptr() as *mut T).add(self.len).write(x); } self.len += 1; }
     pub fn as_slice(&self) -> &[T] { unsafe { std::slice::from_raw_parts(self.items.as_ptr() as *const T, self.len) } }
     pub fn as_mut_slice(&mut self) -> &mut [T] { unsafe { std::slice::from_raw_parts_mut(self.items.as_mut_ptr() as *mut T, self.len) } }
     pub fn clear(&mut self) { self.len = 0; }
     pub fn insert(&mut self, index: usize, x: T) {
         assert!(self.len < VCAP, "env/vec_fixed.rs: capacity exceeded"); assert!(index <= self.len, "insertion index out of bounds");
-        let mut i = self.len; while i > index { self.items[i] = std::mem::replace(&mut self.items[i - 1], MaybeUninit::uninit()); i -= 1; }
-        self.items[index] = MaybeUninit::new(x); self.len += 1;
+        // typed element moves through raw pointers (moving the MaybeUninit unions themselves loses their content in CBMC)
+        let p = self.items.as_mut_ptr() as *mut T;
+        let mut i = self.len; while i > index { unsafe { p.add(i).write(p.add(i - 1).read()); } i -= 1; }
+        unsafe { p.add(index).write(x); } self.len += 1;
     }
     pub fn extend<I: IntoIterator<Item = T>>(&mut self, it: I) { for x in it { self.push(x); } }
     /// stand-in for std's slice sort (insertion sort; std's sort does not finish in CBMC on a symbolic length)
